@@ -82,9 +82,22 @@ class SwapAnalysis(progcheck.ProgramAnalysis):
         skel_old = self.dsp_skel
         skel_new = pj_new['fns'][pj_new['dsp_index']]['state_skeleton']
         size_old, size_new = skel_total(skel_old), skel_total(skel_new)
+        # small states: every word symbolic.  Large states (long delay lines): only a sparse set of words is symbolic -- the first and
+        # last words, the words around every multiple of 2^16 (where a narrow size type would wrap) and the ring cursors -- the rest
+        # carries distinct concrete patterns, so that a word that is lost, moved or zeroed is still seen (stated in the evidence)
+        self.sparse = None
         if size_old > 96 or size_new > 96:
-            r['status'] = 'skipped_large_state'      # every state word is symbolic here: keep the query size bounded (stated in evidence)
-            return
+            if max(size_old, size_new) > 400000:
+                r['status'] = 'skipped_large_state'
+                return
+            S = set(range(min(6, size_old))) | set(range(max(0, size_old - 6), size_old))
+            for k in range(1, size_old // 65536 + 1):
+                S |= set(i for i in range(k * 65536 - 3, k * 65536 + 4) if 0 <= i < size_old)
+            for (addr, size, kind, ln) in self.leaves:
+                if kind == 'Delay':
+                    S -= {addr, addr + 1}       # ring cursors stay concrete: `cursor % 70000` on a symbolic word stalls the bit-blaster
+            self.sparse = S
+            r['sparse_symbolic_words'] = len(S)
         same_src = (self.new_path == self.path)
         smt, it = self.new_interp()
         self.smt, self.it = smt, it
@@ -120,9 +133,12 @@ class SwapAnalysis(progcheck.ProgramAnalysis):
             old = VmRun(it, pj_old)
             old.run_main()
             # arbitrary pre-swap state (delay indices inside their ring, as every run leaves them)
-            ws = [z3.BitVec('s_%d' % i, 64) for i in range(size_old)]
+            if an.sparse is None:
+                ws = [z3.BitVec('s_%d' % i, 64) for i in range(size_old)]
+            else:
+                ws = [z3.BitVec('s_%d' % i, 64) if i in an.sparse else an.concrete_word(i) for i in range(size_old)]
             for (addr, size, kind, ln) in an.leaves:
-                if kind == 'Delay' and ln > 0:
+                if kind == 'Delay' and ln > 0 and not isinstance(ws[addr], int):
                     it.smt.add(z3.ULT(ws[addr], ln))
                     it.smt.add(z3.ULT(ws[addr + 1], ln))
             old.state_words()[:] = [Sc('u64', w) for w in ws]
@@ -212,6 +228,26 @@ class SwapAnalysis(progcheck.ProgramAnalysis):
         r['stubs'] = dict(it.models.used)
         r['stubs'].update({'STUB ' + k: v for k, v in it.stubs_used.items()})
 
+    def concrete_word(self, i):
+        """distinct, non-zero, finite f64 pattern per state word (sparse mode); ring cursors: a small in-range index"""
+        for (addr, size, kind, ln) in self.leaves:
+            if kind == 'Delay' and i in (addr, addr + 1):
+                return 5 % max(1, ln or 1)
+        return 0x4050000000000000 + (i + 1) * 0x1000
+
+    def record_panic(self, f):
+        progcheck.ProgramAnalysis.record_panic(self, f)
+        if getattr(self, 'sparse', None) is not None and self.result['panics']:
+            d = self.result['panics'][-1]
+            init = d.get('init_state')
+            if init is None:
+                init = [0] * self.state_size
+                for (addr, size, kind, ln) in self.leaves:
+                    pass
+            d['init_state'] = [init[i] if i in self.sparse else self.concrete_word(i) for i in range(self.state_size)]
+            d.setdefault('inputs', [[0] * (self.pj['io']['input'] if self.pj.get('io') else 0)])
+            d.setdefault('now0', 0)
+
     def require_equal(self, it, a, b, msg):
         self.result['checks'] += 1
         c = progcheck.words_equal_cond(it.smt, a, b)
@@ -270,6 +306,9 @@ def run(tier, seed, pid='C06'):
     common.build_mmdump()
     mirs = [common.dump_mir('mimium_lang')[0], common.dump_mir('state_tree')[0]]
     files = [f for f in common.corpus_files(['st', 'ct', 'cl', 'gn', 'fx'], tier, seed)]
+    ldir = os.path.join(common.VERIF, 'corpus_large')       # states > 2^16 words, analysed in sparse mode (see SwapAnalysis.explore)
+    if pid == 'C06' and os.path.isdir(ldir) and not os.environ.get('VERIF_ONLY'):
+        files += [os.path.join(ldir, fn) for fn in sorted(os.listdir(ldir)) if fn.endswith('.mmm')]
     budget = 90 if quick else 400
     qto = 5000 if quick else 30000
     jobs = [('analysis', dict(cls=('checks.c06', 'SwapAnalysis'), path=f, mir_paths=mirs, steps=1, mode='inductive',
